@@ -20,3 +20,4 @@ def run(ck):
     alloc.r12_region_storage_released_before_overwrite(ck, P, 'C15-R12')
     alloc.r13_allocation_size_in_wide_type(ck, P)
     alloc.r14_parked_storage_released_on_every_exit(ck, P)
+    alloc.r15_cleanup_loop_starts_at_the_first_element(ck, P)
